@@ -228,22 +228,114 @@ Arguments c_pc {V}. Arguments log {V}. Arguments stale {V}.
 Arguments tv_init {V}. Arguments tv_step {V}. Arguments tv_run {V}. Arguments set_obj {V}.
 
 (* values tagged with their position in the producer's assignment sequence
-   (0 = the initial currentValue); the tag is what "newer" means *)
-Fixpoint tag_from {A} (k : nat) (l : list A) : list (nat * A) :=
-  match l with [] => [] | x :: t => (k, x) :: tag_from (S k) t end.
+   (0 = the initial currentValue); the tag is what "newer" means.  Tags are binary
+   numbers so that the extracted acceptance function is linear. *)
+Fixpoint tagN {A} (k : N) (l : list A) : list (N * A) :=
+  match l with [] => [] | x :: t => (k, x) :: tagN (N.succ k) t end.
+
+(* the tagged system started by the harness: currentValue = v0 (tag 0), the producer
+   assigns vs (tags 1, 2, ...) *)
+Definition tv_init_tagged {A} (v0 : A) (vs : list A) : tv_sys (N * A) :=
+  tv_init (0, v0) (tagN 1 vs).
+
+(* v is the value the producer assigned in position fst v (0: the initial value) *)
+Definition tv_valid {A} (v0 : A) (vs : list A) (v : N * A) : Prop :=
+  nth_error (v0 :: vs) (N.to_nat (fst v)) = Some (snd v).
 
 (* the consumer's view is coherent: get() and a false update() return the value
    of the previous event, a true update() returns a strictly newer one *)
-Fixpoint log_ok {A} (prev : nat * A) (l : list (event (nat * A))) : Prop :=
+Fixpoint log_ok {A} (prev : N * A) (l : list (event (N * A))) : Prop :=
   match l with
   | [] => True
   | EvGet v :: l' => v = prev /\ log_ok prev l'
   | EvUpdate false v :: l' => v = prev /\ log_ok prev l'
-  | EvUpdate true v :: l' => (fst prev < fst v)%nat /\ log_ok v l'
+  | EvUpdate true v :: l' => (fst prev < fst v) /\ log_ok v l'
   end.
 
 Definition ev_val {A} (e : event A) : A :=
   match e with EvUpdate _ v => v | EvGet v => v end.
+
+(* the value the consumer holds after the history l *)
+Definition log_cur {A} (prev : A) (l : list (event A)) : A :=
+  fold_left (fun _ e => ev_val e) l prev.
+
+(* forgetting the tags (tv_step never inspects a value: tv_map_step in ProofsTVal.v) *)
+Definition map_tval {A B} (f : A -> B) (t : tval A) : tval B :=
+  {| tv_new := tv_new t; tv_queued := option_map f (tv_queued t); tv_current := f (tv_current t) |}.
+Definition map_ppc {A B} (f : A -> B) (p : ppc A) : ppc B :=
+  match p with PIdle => PIdle | PWriteQ v => PWriteQ (f v) | PSetFlag => PSetFlag | PUnlock => PUnlock end.
+Definition map_event {A B} (f : A -> B) (e : event A) : event B :=
+  match e with EvUpdate b v => EvUpdate b (f v) | EvGet v => EvGet (f v) end.
+Definition map_sys {A B} (f : A -> B) (s : tv_sys A) : tv_sys B :=
+  {| obj := map_tval f (obj s); mutex := mutex s; p_pc := map_ppc f (p_pc s); p_rem := map f (p_rem s);
+     c_pc := c_pc s; log := map (map_event f) (log s); stale := stale s |}.
+
+(* ------------------------------------------- acceptance of observed histories *)
+(* (these run, extracted, on the histories recorded by the stress harness)     *)
+
+(* TransactionalBuffer: the consumer's batches are replayed against the producers'
+   programs; every element must be the next one its producer has to push *)
+Definition take_elem (rem : list (list N)) (e : elem) : option (list (list N)) :=
+  match nth (fst e) rem [] with
+  | v :: r => if N.eqb v (snd e) then Some (upd rem (fst e) r) else None
+  | [] => None
+  end.
+Fixpoint take_elems (rem : list (list N)) (l : list elem) : option (list (list N)) :=
+  match l with
+  | [] => Some rem
+  | e :: t => match take_elem rem e with Some rem' => take_elems rem' t | None => None end
+  end.
+Fixpoint take_batches (rem : list (list N)) (bs : list (list elem)) : option (list (list N)) :=
+  match bs with
+  | [] => Some rem
+  | b :: t => match take_elems rem b with Some rem' => take_batches rem' t | None => None end
+  end.
+Definition all_nil (rem : list (list N)) : bool :=
+  forallb (fun l => match l with [] => true | _ => false end) rem.
+(* a complete history: all producers have finished and the buffer was drained *)
+Definition tb_accept (progs : list (list N)) (batches : list (list elem)) : bool :=
+  match take_batches progs batches with Some rem => all_nil rem | None => false end.
+
+(* one consumer round of the harness: size(), then empty(), then consume(), producers
+   running in between; with a single consumer the batch cannot be smaller than what
+   size()/empty() announced *)
+Fixpoint lenN {A} (l : list A) (acc : N) : N :=
+  match l with [] => acc | _ :: t => lenN t (N.succ acc) end.
+Definition round_ok (r : N * bool * list elem) : bool :=
+  let '(n, e, b) := r in
+  N.leb n (lenN b 0) && (e || match b with [] => false | _ => true end).
+Definition tb_accept_obs (rounds : list (N * bool * list elem)) : bool := forallb round_ok rounds.
+Definition is_prod (a : tb_actor) : bool := match a with TProd _ => true | TCons _ => false end.
+
+(* TransactionalValue: the consumer's events are replayed against the (tagged) values
+   still to come *)
+Definition tagv := (N * N)%type.
+Definition eqv (a b : tagv) : bool := N.eqb (fst a) (fst b) && N.eqb (snd a) (snd b).
+Fixpoint drop_to (v : tagv) (rest : list tagv) : option (list tagv) :=
+  match rest with
+  | [] => None
+  | w :: t => if eqv w v then Some t else drop_to v t
+  end.
+(* what the harness records: the consumer's events, and quiescent points - HQuiet i after
+   an update() event says: assignment i had completed and the producer was idle from before
+   that update() began until it returned *)
+Inductive hev := HEv (e : event tagv) | HQuiet (i : N).
+Fixpoint tv_acc (rest : list tagv) (prev : tagv) (l : list hev) : option (list tagv) :=
+  match l with
+  | [] => Some rest
+  | HEv (EvGet v) :: l' => if eqv v prev then tv_acc rest prev l' else None
+  | HEv (EvUpdate false v) :: l' => if eqv v prev then tv_acc rest prev l' else None
+  | HEv (EvUpdate true v) :: l' =>
+      match drop_to v rest with Some rest' => tv_acc rest' v l' | None => None end
+  | HQuiet i :: l' => if N.eqb (fst prev) i then tv_acc rest prev l' else None
+  end.
+(* a history so far *)
+Definition tv_accept_prefix (v0 : N) (vs : list N) (l : list hev) : bool :=
+  match tv_acc (tagN 1 vs) (0, v0) l with Some _ => true | None => false end.
+(* a complete history: it ends with an update() begun after the last assignment, so the
+   last value has been obtained *)
+Definition tv_accept (v0 : N) (vs : list N) (l : list hev) : bool :=
+  match tv_acc (tagN 1 vs) (0, v0) l with Some [] => true | _ => false end.
 
 (* --------------------------------------------------------------- lockset *)
 Import String.StringSyntax.
